@@ -43,6 +43,14 @@ def val(i):
     T.append(i); return V(i)
 def pv(i):
     T.append(i); print("o%d" % i); return V(i)
+async def aval(i):
+    await _asyncio.sleep(0); T.append(i); return V(i)
+async def apv(i):
+    await _asyncio.sleep(0); T.append(i); print("o%d" % i); return V(i)
+async def agen(i):
+    T.append(i)
+    for _k in range(2):
+        yield V(i * 10 + _k)
 '''
 
 
